@@ -156,6 +156,12 @@ variable {α : Type} [CommRing α] [DecidableEq α]
 def cross (a b : V3 α) : V3 α :=
   ⟨a.y * b.z - a.z * b.y, a.z * b.x - a.x * b.z, a.x * b.y - a.y * b.x⟩
 
+omit [DecidableEq α] in
+/-- one hydrogen at `a − v·L` lies on the line through the centre along `v` -/
+theorem oneH_parallel (a v : V3 α) (L : α) : cross ((a.sub (v.smul L)).sub a) v = ⟨0, 0, 0⟩ := by
+  simp only [cross, V3.sub, V3.smul, V3.mk.injEq]
+  refine ⟨by ring, by ring, by ring⟩
+
 /-- `z = cross(vec, ẑ)`, replaced by `cross(vec, x̂)` when it vanishes (before normalisation) -/
 def fallbackNormal (vec : V3 α) : V3 α :=
   if cross vec ⟨0, 0, 1⟩ = ⟨0, 0, 0⟩ then cross vec ⟨1, 0, 0⟩ else cross vec ⟨0, 0, 1⟩
